@@ -2,6 +2,7 @@ package config
 
 import (
 	"path/filepath"
+	"sort"
 	"strings"
 
 	"github.com/jmattheis/goverter/config/parse"
@@ -41,6 +42,7 @@ func getPackages(raw *Raw) []string {
 	for pkg := range lookup {
 		pkgs = append(pkgs, "pattern="+pkg)
 	}
+	sort.Strings(pkgs)
 
 	return pkgs
 }
